@@ -174,7 +174,23 @@ def base_payload(p):
     return p
 
 
+def fuser_in_place(pred):
+    """a callback that fuses by rewriting the current node and returning that same object"""
+    def cb(parent: Node, pout: str, cur: Node, cin: str):
+        if not pred(parent, cur):
+            return None
+        ins = {k: v for k, v in cur.inputs.items() if k != cin}
+        for k, v in parent.inputs.items():
+            ins[f"{cin}>{k}"] = v
+        cur.payload = ("F", cur.payload, cin, parent.payload, pout)
+        cur.inputs = ins
+        return cur
+
+    return cb
+
+
 FUSERS = {
+    "in-place": fuser_in_place(lambda p, c: True),
     "never": fuser(lambda p, c: False),
     "always": fuser(lambda p, c: True),
     "when-parent-p": fuser(lambda p, c: base_payload(p.payload) == "p"),
@@ -448,6 +464,9 @@ def specs_for(ctx):
         specs += dag_specs(5, "colliding", payloads=("by-depth",), outputs=("multi",))
     else:
         specs += dag_specs(2, "unique", payloads=("alt",), outputs=("multi",), out_names=("name", "payload"))
+    # named outputs next to the default output name
+    for n in ((2, 3) if ctx.quick else (2, 3, 4)):
+        specs += dag_specs(n, "unique", payloads=("alt",), outputs=("multi",), out_names=("0", "b"))
     return specs
 
 
